@@ -18,11 +18,26 @@ func TestC18(t *testing.T) {
 			deep := map[int]bool{}
 			longStr := map[int]bool{}
 			midDeep := map[int]bool{}
+			big := map[int]bool{}
+			prefixOf := map[int]bool{}
 			for i := 0; i < nd; i++ {
 				var b []byte
 				dk := rapid.IntRange(0, 7).Draw(rt, "dockind")
 				if i == 1 && len(deep) == 0 && rapid.IntRange(0, 4).Draw(rt, "middeepround?") == 0 {
 					dk = 8 // one mid-depth input in about one round out of five
+				}
+				if i == 2 && len(big) == 0 && nd > 4 && rapid.IntRange(0, 3).Draw(rt, "biground?") == 0 {
+					dk = 9 // a large document and, next, a shorter view of it from the same first byte
+				}
+				if i > 0 && big[i-1] && !prefixOf[i-1] {
+					base := c.Steps[i-1].In
+					k := []int{len(base) - 1, len(base) / 2, len(base) - 2, 33000}[rapid.IntRange(0, 3).Draw(rt, "cut")]
+					if k > len(base) {
+						k = len(base) - 1
+					}
+					c.Steps = append(c.Steps, core.Case{Kind: "prefix", Ints: []int64{int64(i - 1), int64(k)}})
+					big[i], prefixOf[i] = true, true
+					continue
 				}
 				if i == 0 && rapid.IntRange(0, 5).Draw(rt, "deepround?") == 0 {
 					dk = 99 // one depth-limit input in about one round out of six
@@ -41,6 +56,14 @@ func TestC18(t *testing.T) {
 				case 6:
 					b = gen.NestSpec{Depth: rapid.IntRange(2, 40).Draw(rt, "depth"), Pattern: gen.NestPatterns[rapid.IntRange(0, len(gen.NestPatterns)-1).Draw(rt, "pat")],
 						Close: rapid.IntRange(0, 40).Draw(rt, "close"), Bottom: []string{"1", `"x"`, "", "]"}[rapid.IntRange(0, 3).Draw(rt, "bottom")]}.Build()
+				case 9:
+					n := []int{33000, 40000, 70000}[rapid.IntRange(0, 2).Draw(rt, "bigsize")]
+					b = append(b, '[')
+					for len(b) < n {
+						b = append(b, `{"id":123456,"tags":["a","b"]},`...)
+					}
+					b = append(b, `null]`...)
+					big[i] = true
 				case 8:
 					// thousands of levels, well below the limit: the recursive Buffer-less walk has
 					// that many traversals in progress at once on every goroutine
@@ -101,6 +124,11 @@ func TestC18(t *testing.T) {
 						fn = skipFamily[fn%len(skipFamily)]
 						r.Label("op.on-depth-limit-input")
 					}
+				}
+				if big[doc] {
+					// validity and skipping only: the two views differ in exactly that
+					fn = []int{0, 30, 1, 31, 0, 30, 2, 32, 0, 30}[fn%10]
+					r.Label("op.on-large-shared-prefix-input")
 				}
 				if midDeep[doc] {
 					if midOps >= 10 && nd > 2 {
